@@ -22,7 +22,7 @@ def field_of_self(body, c):
     return None
 
 
-def write_sites(facts, fnpath):
+def write_sites(facts, fnpath, _depth=0):
     """[(field, kind, detail, bb, idx, line)] writes through self in fn: kind in assign/call"""
     S = summ.summaries(facts)
     fn = facts.fns[fnpath]
@@ -41,7 +41,15 @@ def write_sites(facts, fnpath):
                 else:
                     c0 = body.canon_op(t['args'][0]) if t['args'] else None
                     if c0 in (('param', 'self'), ('deref', ('param', 'self'))):
-                        out.append(('*', 'call', t['callee'].get('path') or t['callee'].get('key'), m['bb'], 'term', t['line'], t))
+                        q = t['callee'].get('path')
+                        g = facts.fns.get(q)
+                        if g is not None and g.impl_self_adt == fn.impl_self_adt and q != fnpath and _depth < 3:
+                            # a helper of the same object called on self: its writes (on ITS every path) count here
+                            for w in write_sites(facts, q, _depth + 1):
+                                if w[0] and w[0] != '*' and on_every_path(g.body, w[3]):
+                                    out.append((w[0], w[1], w[2], m['bb'], 'term', t['line'], w[6]))
+                        else:
+                            out.append(('*', 'call', q or t['callee'].get('key'), m['bb'], 'term', t['line'], t))
         else:
             st = body.blocks[m['bb']]['stmts'][m['idx']]
             if st['k'] == 'assign':
@@ -56,8 +64,13 @@ def write_sites(facts, fnpath):
 
 
 def on_every_path(body, bb):
-    """block bb lies on every path from entry to every return"""
-    exits = body.exits()
+    """block bb lies on every path from entry to every SUCCESSFUL exit (Ok exits of a Result-returning
+    fn — a failing reset must leave the object alone, C07 — otherwise every return)"""
+    if body.local_ty(0).startswith('std::result::Result<'):
+        errs, oks = core.result_exits(body)
+        exits = [b for (b, k, d) in oks]
+    else:
+        exits = body.exits()
     return bool(exits) and all(body.dominates(bb, x) for x in exits)
 
 
@@ -149,37 +162,90 @@ def check_reset_discipline(ctx, facts, cfg, R_drop, R_recv, R_full):
         fb = facts.fns[full].body
         pnames = facts.fns[full].param_names()
         for fld in fields:
-            hits = [w for w in ws if w[0] == fld and on_every_path(fb, w[3])]
+            ty = ftypes[fld]
             verdict = None
-            if not hits:
-                # a helper called on every path that rewrites the whole object counts for its fields
+            any_w = covered(fb, ws, fld, lambda w: True, RL.store_adt if ty == RL.store_adt else None)
+            if not any_w:
                 verdict = 'is not rewritten on every path'
+            elif fld in pr and fld not in store:
+                if not covered(fb, ws, fld, lambda w: is_clearing(w, ty), None):
+                    verdict = 'is written but not cleared on every path (%s)' % describe(any_w[0])
+            elif fld in store:
+                if not covered(fb, ws, fld, lambda w: w[1] == 'call' and (w[2] == RL.fn.get('store.resize') or re.search(r'Vec::<.*>::resize$', w[2] or '')), RL.store_adt):
+                    verdict = 'shard store is not resized on every path'
             else:
-                ty = ftypes[fld]
-                if fld in pr and fld not in store:
-                    if not any(is_clearing(w, ty) for w in hits):
-                        verdict = 'is written but not cleared (%s)' % describe(hits[0])
-                elif fld in store:
-                    if not any(w[1] == 'call' and (w[2] == RL.fn.get('store.resize') or re.search(r'Vec::<.*>::resize$', w[2] or '')) for w in hits):
-                        verdict = 'shard store is not resized here'
-                else:
-                    # configuration field: assigned from a parameter (or an expression of parameters)
-                    okp = False
-                    for w in hits:
-                        if w[1] == 'assign':
-                            names = set()
-                            collect_params(w[2], names)
-                            if names and names <= set(pnames):
-                                okp = True
-                    if not okp:
-                        verdict = 'is not assigned from the reset parameters'
+                def from_params(w):
+                    if w[1] != 'assign':
+                        return False
+                    names = set()
+                    collect_params(w[2], names)
+                    return bool(names) and names <= set(pnames)
+                if not covered(fb, ws, fld, from_params, None):
+                    verdict = 'is not assigned from the reset parameters on every path'
             if verdict:
                 ctx.violation(R_full, 'field-not-reset:%s' % rname(fld),
                               'field %s.%s %s in %s: an explicit reset (or a work object handed to a new codec) keeps state from the previous configuration'
                               % (core.short(work_adt), fld, verdict, core.short(full)), site=facts.fns[full].span, fn=full, cfg=cfg)
             else:
-                ctx.ok(R_full, '%s:%s@%s' % (core.short(full), fld, cfg), {'at': hits[0][5]})
+                ctx.ok(R_full, '%s:%s@%s' % (core.short(full), fld, cfg), {'at': any_w[0][5]})
         ctx.floor(R_full, 5, len(fields), 'fields of %s' % work_adt, cfg=cfg)
+
+
+def success_exits(body):
+    if body.local_ty(0).startswith('std::result::Result<'):
+        errs, oks = core.result_exits(body)
+        return [b for (b, k, d) in oks]
+    return body.exits()
+
+
+def covered(body, ws, fld, pred, store_adt):
+    """Every path to a successful exit passes (a) a write of the field that satisfies `pred`, or (b) the true
+    edge of an equality test showing that the field already holds the value that would be assigned
+    (`self.f == p`; for the shard store: a getter of the store compared with a parameter).
+    Returns the qualifying writes if so, else []."""
+    writes = [w for w in ws if w[0] == fld and pred(w)]
+    if not writes:
+        return []
+    assigns = [w for w in ws if w[0] == fld and w[1] == 'assign']
+    vals = {repr(core.strip_var_ids(w[2])) for w in assigns}
+    SELF = ('deref', ('param', 'self'))
+    eq_true = set()
+    for sb in range(body.n):
+        t = body.term(sb)
+        if t['k'] != 'switch' or body.blocks[sb]['cleanup']:
+            continue
+        c = body.canon_op(t['discr'])
+        neg = False
+        while c[0] == 'un' and c[1] == 'Not':
+            neg, c = (not neg), c[2]
+        if c[0] == 'bin' and c[1] in ('Eq', 'Ne'):
+            a, b2 = core.strip_var_ids(c[2]), core.strip_var_ids(c[3])
+            good = False
+            for x, other in ((a, b2), (b2, a)):
+                if x == ('field', SELF, fld) and repr(other) in vals:
+                    good = True
+                if store_adt and x[0] == 'call' and x[2] and strip_ref(x[2][0]) == ('field', SELF, fld):
+                    names = set()
+                    collect_params(other, names)
+                    if names:
+                        good = True
+            if not good:
+                continue
+            zero = [tgt for v, tgt in t['targets'] if v == 0]
+            if len(zero) != 1:
+                continue
+            is_eq = (c[1] == 'Eq') != neg
+            eq_true.add((sb, t['otherwise']) if is_eq else (sb, zero[0]))
+    stop = frozenset(w[3] for w in writes)
+    reach = body.reachable_from(0, removed_edges=eq_true, stop=stop)
+    bad = [x for x in success_exits(body) if x in reach and x not in stop]
+    return [] if bad else writes
+
+
+def strip_ref(c):
+    while isinstance(c, tuple) and c and c[0] == 'ref':
+        c = c[1]
+    return core.strip_var_ids(c)
 
 
 def collect_params(c, out):
